@@ -329,6 +329,70 @@ def run(ctx):
             ctx.fail("ledger:endpoints_grow", "%d endpoints open at once during %d reconnect cycles" % (mx_eps, len(obs) - 1), {"seed": seed})
         if mx_tasks > 16:
             ctx.fail("ledger:tasks_grow", "%d tasks alive at once during %d reconnect cycles" % (mx_tasks, len(obs) - 1), {"seed": seed})
+    # ---- the task registry itself: whatever was started under a key - also several tasks with one name, also across tidy passes - is cancelled by
+    #      cancel_key_tasks(key), nothing else is, and gather() leaves nothing alive
+    def registry_run(seed):
+        import random
+        from geckolib.async_tasks import AsyncTasks
+        rr = random.Random(seed)
+
+        async def main(loop):
+            tm = AsyncTasks()
+            await tm.__aenter__()
+            started = []
+
+            async def body(kind):
+                if kind == 0:
+                    await asyncio.sleep(3600)
+                elif kind == 1:
+                    while True:
+                        await asyncio.sleep(0.1)
+                else:
+                    await asyncio.sleep(rr.choice([0.05, 0.5]))
+            names = ["Set value task", "Ping loop", "Facade update", "Broadcast loop"]
+            log = []
+            for step in range(14):
+                op = rr.choice(["add", "add", "add", "cancel", "sleep", "tidy"])
+                if op == "add":
+                    key, nm, kind = rr.choice(["SPA", "FACADE", "LOC"]), rr.choice(names), rr.randrange(3)
+                    before = set(asyncio.all_tasks(loop))
+                    tm.add_task(body(kind), nm, key)
+                    new = [t for t in asyncio.all_tasks(loop) if t not in before]
+                    started += [(key, t) for t in new]
+                    log.append(("add", key, nm, kind))
+                elif op == "cancel":
+                    key = rr.choice(["SPA", "FACADE", "LOC"])
+                    tm.cancel_key_tasks(key)
+                    await asyncio.sleep(0.01)
+                    log.append(("cancel", key))
+                    alive = [t.get_name() for (k, t) in started if k == key and not t.done()]
+                    if alive:
+                        return ("cancel_key_tasks(%r) left alive: %r" % (key, alive), log)
+                elif op == "tidy":
+                    await asyncio.sleep(GeckoConfigTidy() + 0.5)
+                    log.append(("tidy pass",))
+                else:
+                    await asyncio.sleep(0.2)
+                    log.append(("sleep",))
+            await tm.gather()
+            await asyncio.sleep(0.01)
+            alive = [t.get_name() for (k, t) in started if not t.done()]
+            if alive:
+                return ("gather() left alive: %r" % (alive,), log)
+            return (None, log)
+
+        def GeckoConfigTidy():
+            from geckolib.config import GeckoConfig
+            return GeckoConfig.TASK_TIDY_FREQUENCY_IN_SECONDS
+        fullstack.reset_config()
+        return vloop.run(main)
+    for seed in range(60 if ctx.thorough else 20):
+        bad, log = registry_run(ctx.seed * 1000 + seed)
+        ctx.count("task_registry_histories")
+        ctx.case(("registry", str(log)), nontrivial=sum(1 for x in log if x[0] == "add") >= 2)
+        if bad:
+            ctx.fail("ledger:registry_loses_a_task", "AsyncTasks: %s" % bad, {"history": [list(x) for x in log], "seed": ctx.seed * 1000 + seed})
+            break
     # resets that land at await points INSIDE another handler (the interleaved lifecycle rig of C08: the client's handler suspends at
     # every delivery, tasks are resumed one burst at a time): no spa object may be left behind without disconnect() having completed on it
     from harness import lifecycle_i
